@@ -32,6 +32,11 @@ Proof. unfold negs. rewrite <- (filter_len (fun x => sl x <? 0) b). apply Nat.le
 Lemma forallb_sum_order (p : Z * Z -> bool) b : forallb p b = true -> forallb p (sum_order b) = true.
 Proof. intros H. apply forallb_forall. intros x Hx. rewrite forallb_forall in H. apply H. now apply sum_order_in. Qed.
 
+Lemma len_ok_le {A} (b : list A) : len_ok b = true -> Z.of_nat (length b) <= 4294967295.
+Proof. intros H. unfold len_ok in H. apply Z.leb_le in H. exact H. Qed.
+Lemma nat_le_u32 (n m : nat) : (n <= m)%nat -> Z.of_nat m <= 4294967295 -> 0 <= Z.of_nat n <= 4294967295.
+Proof. lia. Qed.
+
 (* ---------- u32 / add_u ---------- *)
 Lemma add_u_num a : 0 <= a <= 4294967295 -> add_u a = r_num (sp1 a).
 Proof. intros H. unfold add_u, r_num, sp1. cbn [fst snd app]. now rewrite u32_id. Qed.
@@ -63,10 +68,10 @@ Lemma w_sum_text bnd b card : forallb mlit_rng b = true -> len_ok b = true -> 0 
     (if card then [] else r_num (sp1 bnd)) ++ r_counts (lay_wbody b) ++ (if card then r_num (sp1 bnd) else []) ++
     r_nums (b_atoms (lay_wbody b)) ++ (if card then [] else r_nums (lay_wts b)).
 Proof.
-  intros Hb Hlen Hbnd. unfold len_ok, UINT_MAX in Hlen. unfold w_sum, r_counts, r_cnt, lay_wbody, lay_wts. cbn [b_lws b_neg b_atoms].
-  rewrite !map_length, sum_order_len. pose proof (negs_len_le sm_lit b) as Hn.
+  intros Hb Hlen Hbnd. apply len_ok_le in Hlen. unfold w_sum, r_counts, r_cnt, lay_wbody, lay_wts. cbn [b_lws b_neg b_atoms].
+  rewrite !map_length, sum_order_len.
   assert (X : 0 <= Z.of_nat (length b) <= 4294967295) by lia.
-  assert (Y : 0 <= Z.of_nat (length (negs sm_lit b)) <= 4294967295) by lia.
+  assert (Y : 0 <= Z.of_nat (length (negs sm_lit b)) <= 4294967295) by (apply (nat_le_u32 _ _ (negs_len_le sm_lit b) Hlen)).
   rewrite !add_u_num by assumption. unfold sum_order. rewrite !map_app, !r_nums_app.
   assert (Ha : forall l, (forall x, In x l -> In x b) -> adds (map (fun x => Z.abs (fst x)) l) = r_nums (map sp1 (map (fun x => Z.abs (fst x)) l))).
   { intros l Hl. apply adds_map_nums. intros x Hx. rewrite forallb_forall in Hb. pose proof (mlit_abs x (Hb x (Hl x Hx))). unfold atomMax in *. lia. }
@@ -93,9 +98,10 @@ Qed.
 Lemma lay_wbody_in b : forallb mlit_rng b = true -> len_ok b = true ->
   body_in (lay_wbody b) = true /\ forallb atom_in (b_atoms (lay_wbody b)) = true /\ forallb weight_in (lay_wts b) = true.
 Proof.
-  intros Hb Hlen. unfold len_ok in Hlen. unfold body_in, lay_wbody, lay_wts, count_in. cbn [b_lws b_neg b_atoms snd sp1].
-  rewrite !map_length, sum_order_len. pose proof (negs_len_le sm_lit b) as Hn. unfold UINT_MAX in *. repeat split.
-  - repeat (apply andb_true_intro; split); lia.
+  intros Hb Hlen. apply len_ok_le in Hlen. unfold body_in, lay_wbody, lay_wts, count_in. cbn [b_lws b_neg b_atoms snd sp1].
+  rewrite !map_length, sum_order_len. pose proof (nat_le_u32 _ _ (negs_len_le sm_lit b) Hlen) as Hn. pose proof (negs_len_le sm_lit b) as Hn2.
+  apply Nat2Z.inj_le in Hn2. change UINT_MAX with 4294967295. repeat split.
+  - repeat (apply andb_true_intro; split); apply Z.leb_le; [exact Hlen | apply Hn | exact Hn2].
   - rewrite !forallb_map. apply (forallb_imp mlit_rng); [|now apply forallb_sum_order].
     intros x _ Hx. pose proof (mlit_abs x Hx). unfold atom_in, sp1. cbn [snd]. lia.
   - rewrite !forallb_map. apply (forallb_imp mlit_rng); [|now apply forallb_sum_order].
@@ -121,7 +127,7 @@ Proof.
   unfold d_body, lay_wbody, vals. cbn [b_neg b_atoms snd sp1]. rewrite Nat2Z.id. rewrite !map_map. cbn [snd].
   unfold sum_order. rewrite !map_app, firstn_app, skipn_app, !map_length, Nat.sub_diag. cbn [firstn skipn]. rewrite app_nil_r.
   rewrite firstn_all2 by (rewrite map_length; lia). rewrite skipn_all2 by (rewrite map_length; lia). cbn [app].
-  rewrite map_map. f_equal; apply map_ext_in; intros x Hx; apply filter_In in Hx; destruct Hx as [_ Hx]; unfold sm_lit in *; cbn [snd];
+  rewrite map_map. f_equal; apply map_ext_in; intros x Hx; apply filter_In in Hx; destruct Hx as [_ Hx]; cbv beta in Hx; unfold sm_lit in *; unfold sp1; cbn [snd];
     destruct (0 <=? snd x); lia.
 Qed.
 Lemma lay_w_denote b : combine (d_body (lay_wbody b)) (vals (lay_wts b)) = norm_min b.
@@ -133,4 +139,337 @@ Lemma lay_c_denote b : is_card b = true -> map (fun l => (l, 1)) (d_body (lay_wb
 Proof.
   intros Hc. rewrite lay_wbody_dbody, map_map, <- sum_order_flip. apply map_ext_in. intros x Hx. apply sum_order_in in Hx.
   unfold is_card in Hc. rewrite forallb_forall in Hc. specialize (Hc x Hx). rewrite <- flipw_pair. f_equal. lia.
+Qed.
+
+(* ---------- one call of the rule section ---------- *)
+Lemma atom_rng_u32 a : atom_rng a = true -> 0 <= a <= 4294967295.
+Proof. unfold atom_rng, atomMax. lia. Qed.
+Lemma atom_rng_in a : atom_rng a = true -> atom_in (sp1 a) = true.
+Proof. unfold atom_rng, atom_in, sp1. cbn [snd]. trivial. Qed.
+Lemma sp1_ok a : 0 <= a -> num_ok (sp1 a) = true.
+Proof. intros H. unfold num_ok, sp1. cbn [fst snd]. apply andb_true_intro. split; [reflexivity | lia]. Qed.
+Lemma line_nil rl : flat_map line [rl] = print_nat (rule_type rl) ++ rule_fields rl ++ eol.
+Proof. cbn [flat_map]. unfold line. now rewrite app_nil_r. Qed.
+Lemma len_ok_u32 {A} (b : list A) : len_ok b = true -> Z.of_nat (length b) <= 4294967295.
+Proof. apply len_ok_le. Qed.
+
+Lemma frag_crule ext f ht h b : frag_rule ext f (CRule ht h b) = true ->
+  (ht =? Head_t_Disjunctive) || (ht =? Head_t_Choice) = true /\ forallb atom_rng h = true /\ Z.of_nat (length h) <= atomMax /\
+  forallb lit_rng b = true /\ len_ok b = true /\ negb (isnil h) || (ht =? Head_t_Choice) || atom_rng f = true.
+Proof. cbn [frag_rule]. intros H. bsplit. repeat split; try assumption. lia. Qed.
+Lemma frag_cwrule ext f ht h bnd b : frag_rule ext f (CWRule ht h bnd b) = true ->
+  (ht =? Head_t_Disjunctive) = true /\ Z.of_nat (length h) <= 1 /\ forallb atom_rng h = true /\ negb (isnil h) || atom_rng f = true /\
+  0 <= bnd <= INT_MAX /\ forallb wlit_rng b = true /\ len_ok b = true.
+Proof. cbn [frag_rule]. intros H. bsplit. repeat split; try assumption; lia. Qed.
+
+Lemma step_rule ext f s ht h b : w_sec s = 0 -> w_false s = f -> frag_rule ext f (CRule ht h b) = true ->
+  sm_step s (CRule ht h b) = WOk (if empty_head (CRule ht h b) then set_fhead s else s) (flat_map line (lay_rule f (CRule ht h b))).
+Proof.
+  intros Hsec Hf H. destruct (frag_crule _ _ _ _ _ H) as (Hht & Hh & Hhl & Hb & Hbl & Hfa).
+  pose proof (len_ok_le b Hbl) as Hbl'.
+  cbn [sm_step]. unfold w_rule. rewrite Hsec. cbn [Z.eqb negb]. cbn [empty_head lay_rule].
+  destruct (ht =? Head_t_Choice) eqn:Ec.
+  - (* choice *)
+    destruct h as [|a [|a2 h2]].
+    + reflexivity.
+    + cbn [negb]. rewrite line_nil. cbn [rule_type rule_fields]. unfold is_sm_head. rewrite Ec.
+      rewrite (w_head_multi ht [a]) by (rewrite ?Ec; try reflexivity; assumption).
+      rewrite (w_body_text b Hb Hbl'). cbn [map]. rewrite <- !app_assoc. reflexivity.
+    + rewrite line_nil. cbn [rule_type rule_fields]. unfold is_sm_head. rewrite Ec.
+      rewrite (w_head_multi ht (a :: a2 :: h2)) by (rewrite ?Ec; try reflexivity; assumption).
+      rewrite (w_body_text b Hb Hbl'). rewrite <- !app_assoc. reflexivity.
+  - (* disjunctive *)
+    cbn [negb]. destruct h as [|a [|a2 h2]].
+    + cbn [isnil negb orb] in Hfa. rewrite Hf. pose proof (atom_rng_u32 f Hfa) as Hfu.
+      assert (E0 : (f =? 0) = false) by (unfold atom_rng in Hfa; lia). rewrite E0.
+      rewrite line_nil. cbn [rule_type rule_fields].
+      rewrite (w_head_single ht f Ec Hfu), (w_body_text b Hb Hbl'). rewrite <- !app_assoc. reflexivity.
+    + cbn [forallb] in Hh. bsplit. rewrite line_nil. cbn [rule_type rule_fields]. unfold is_sm_head. rewrite Ec. cbn [length Nat.eqb].
+      rewrite (w_head_single ht a Ec (atom_rng_u32 a ltac:(assumption))), (w_body_text b Hb Hbl'). rewrite <- !app_assoc. reflexivity.
+    + rewrite line_nil. cbn [rule_type rule_fields]. unfold is_sm_head. rewrite Ec. cbn [length Nat.eqb].
+      rewrite (w_head_multi ht (a :: a2 :: h2)); [| rewrite Ec; cbn [orb length]; lia | assumption | assumption].
+      rewrite (w_body_text b Hb Hbl'). rewrite <- !app_assoc. reflexivity.
+Qed.
+
+Lemma wlit_mlit b : forallb wlit_rng b = true -> forallb mlit_rng b = true.
+Proof.
+  apply forallb_imp. intros x _. unfold wlit_rng, mlit_rng. intros H. bsplit.
+  apply andb_true_intro; split; [assumption | unfold INT_MAX in *; lia].
+Qed.
+Lemma wlit_nonneg b : forallb wlit_rng b = true -> forallb (fun x => 0 <=? snd x) b = true.
+Proof. apply forallb_imp. intros x _. unfold wlit_rng. intros H. bsplit. assumption. Qed.
+
+Lemma step_wrule ext f s ht h bnd b : w_sec s = 0 -> w_false s = f -> frag_rule ext f (CWRule ht h bnd b) = true ->
+  sm_step s (CWRule ht h bnd b) =
+  WOk (if empty_head (CWRule ht h bnd b) then set_fhead s else s) (flat_map line (lay_rule f (CWRule ht h bnd b))).
+Proof.
+  intros Hsec Hf H. destruct (frag_cwrule _ _ _ _ _ _ H) as (Hht & Hhl & Hh & Hfa & Hbnd & Hb & Hbl).
+  apply Z.eqb_eq in Hht. subst ht. pose proof (wlit_mlit b Hb) as Hm.
+  assert (Hbu : 0 <= bnd <= 4294967295) by (unfold INT_MAX in Hbnd; lia).
+  cbn [sm_step]. unfold w_wrule. rewrite Hsec. cbn [Z.eqb negb]. cbn [empty_head lay_rule].
+  assert (Hgen : forall a s1, atom_rng a = true ->
+      (let rt := is_sm_rule Head_t_Disjunctive [a] bnd b in
+       if rt =? Sm_End then WErr else WOk s1 (print_nat rt ++ w_head Head_t_Disjunctive [a] ++ w_sum bnd b (rt =? Sm_Cardinality) ++ eol))
+      = WOk s1 (flat_map line (if is_card b then [RCard [10] (sp1 a) (lay_wbody b) (sp1 bnd)]
+                               else [RWeight [10] (sp1 a) (sp1 bnd) (lay_wbody b) (lay_wts b)]))).
+  { intros a s1 Ha. cbv zeta. unfold is_sm_rule, is_sm_head. change (Head_t_Disjunctive =? Head_t_Choice) with false. cbn [length Nat.eqb].
+    change (Sm_Basic =? Sm_Basic) with true. cbn [negb orb]. assert (E : (bnd <? 0) = false) by lia. rewrite E.
+    fold (is_card b). rewrite (w_head_single Head_t_Disjunctive a eq_refl (atom_rng_u32 a Ha)).
+    destruct (is_card b).
+    - change (Sm_Cardinality =? Sm_End) with false. change (Sm_Cardinality =? Sm_Cardinality) with true. cbv iota.
+      rewrite line_nil. cbn [rule_type rule_fields]. rewrite (w_sum_text bnd b true Hm Hbl Hbu).
+      cbn [app]. rewrite ?app_nil_r, <- ?app_assoc. reflexivity.
+    - change (Sm_Weight =? Sm_End) with false. change (Sm_Weight =? Sm_Cardinality) with false. cbv iota.
+      rewrite line_nil. cbn [rule_type rule_fields]. rewrite (w_sum_text bnd b false Hm Hbl Hbu).
+      cbn [app]. rewrite ?app_nil_r, <- ?app_assoc. reflexivity. }
+  destruct h as [|a [|a2 h2]].
+  - cbn [isnil negb orb] in Hfa. rewrite Hf. assert (E0 : (f =? 0) = false) by (unfold atom_rng in Hfa; lia). rewrite E0.
+    apply (Hgen f (set_fhead s) Hfa).
+  - cbn [forallb] in Hh. bsplit. apply (Hgen a s). assumption.
+  - cbn [length] in Hhl. lia.
+Qed.
+
+Lemma frag_cmin ext f p l : frag_rule ext f (CMin p l) = true -> forallb mlit_rng l = true /\ len_ok l = true.
+Proof. cbn [frag_rule]. intros H. bsplit. split; assumption. Qed.
+Lemma step_min ext f s p l : frag_rule ext f (CMin p l) = true ->
+  sm_step s (CMin p l) = WOk s (flat_map line (lay_rule f (CMin p l))).
+Proof.
+  intros H. destruct (frag_cmin _ _ _ _ H) as (Hm & Hl). cbn [sm_step lay_rule]. rewrite line_nil. cbn [rule_type rule_fields].
+  rewrite (w_sum_text 0 l false Hm Hl ltac:(lia)). cbn [app]. rewrite ?app_nil_r, <- ?app_assoc. reflexivity.
+Qed.
+
+Lemma frag_cext ext f a v : frag_rule ext f (CExternal a v) = true -> ext = true /\ atom_rng a = true /\ 0 <= v <= 3.
+Proof. cbn [frag_rule]. intros H. bsplit. repeat split; try assumption; lia. Qed.
+Lemma extval_rng v : 0 <= v <= 3 -> (v =? Value_t_Release) = false -> 0 <= Z.lxor v smw_extval_xor - smw_extval_sub <= 2.
+Proof.
+  intros Hv E. unfold Value_t_Release in E. assert (C : v = 0 \/ v = 1 \/ v = 2) by lia. destruct C as [C|[C|C]]; subst v; cbv; split; discriminate.
+Qed.
+Lemma step_ext ext f s a v : w_ext s = ext -> frag_rule ext f (CExternal a v) = true ->
+  sm_step s (CExternal a v) = WOk s (flat_map line (lay_rule f (CExternal a v))).
+Proof.
+  intros He H. destruct (frag_cext _ _ _ _ H) as (Hext & Ha & Hv). rewrite Hext in He. cbn [sm_step lay_rule]. rewrite He. cbn [negb].
+  pose proof (atom_rng_u32 a Ha) as Hau.
+  destruct (v =? Value_t_Release) eqn:E; rewrite line_nil; cbn [rule_type rule_fields].
+  - rewrite (add_u_num a Hau). reflexivity.
+  - pose proof (extval_rng v Hv E) as Hx.
+    assert (Hx' : 0 <= Z.lxor v smw_extval_xor - smw_extval_sub <= 4294967295) by lia.
+    rewrite (add_u_num a Hau), (add_u_num _ Hx'). rewrite <- ?app_assoc. reflexivity.
+Qed.
+
+(* ---------- the laid-out rule of a call: well-formed, in range, denotes the normal form ---------- *)
+Lemma vals_sp1 h : vals (map sp1 h) = h.
+Proof. unfold vals. rewrite map_map. cbn [sp1 snd]. apply map_id. Qed.
+Lemma atoms_sp1_ok h : forallb atom_rng h = true -> forallb num_ok (map sp1 h) = true /\ forallb atom_in (map sp1 h) = true.
+Proof.
+  intros H. rewrite !forallb_map. split; apply (forallb_imp atom_rng); try assumption; intros x _ Hx.
+  - apply sp1_ok. unfold atom_rng in Hx. lia.
+  - now apply atom_rng_in.
+Qed.
+Lemma lay_body_in' b : forallb lit_rng b = true -> len_ok b = true ->
+  body_in (lay_body b) = true /\ forallb atom_in (b_atoms (lay_body b)) = true.
+Proof. intros Hb Hl. pose proof (lay_body_in b Hb (len_ok_le b Hl)) as H. apply andb_prop in H. exact H. Qed.
+Lemma and3 (a b c : bool) : a = true -> b = true -> c = true -> a && b && c = true.
+Proof. intros -> -> ->. reflexivity. Qed.
+
+Lemma lay_rule_wf ext f c rl : frag_rule ext f c = true -> In rl (lay_rule f c) ->
+  rule_ok rl = true /\ rule_tw rl = [10] /\ rule_in ext rl = true.
+Proof.
+  intros H Hin. destruct c as [inc| | |ht h b|ht h bnd b|p l|atoms|name cond|a v|lits|a t bias prio cond|s0 t cond|id n|id s0|id c args|id terms cond|a t elems|a t elems op rhs];
+    try discriminate H.
+  - (* rule *)
+    destruct (frag_crule _ _ _ _ _ H) as (Hht & Hh & Hhl & Hb & Hbl & Hfa).
+    destruct (lay_body_in' b Hb Hbl) as [Hbi Hba]. pose proof (lay_body_ok b) as Hbo.
+    assert (HB : forall x, atom_rng x = true -> rule_ok (RBasic [10] (sp1 x) (lay_body b)) = true /\ rule_tw (RBasic [10] (sp1 x) (lay_body b)) = [10]
+                           /\ rule_in ext (RBasic [10] (sp1 x) (lay_body b)) = true).
+    { intros x Hx. cbn [rule_ok rule_tw rule_in]. rewrite Hbo, Hbi, Hba, (atom_rng_in x Hx), sp1_ok by (unfold atom_rng in Hx; lia). repeat split. }
+    assert (HM : forall c0 hs, hs <> [] -> forallb atom_rng hs = true -> Z.of_nat (length hs) <= atomMax ->
+                   rule_ok (RMulti c0 [10] [32] (map sp1 hs) (lay_body b)) = true /\ rule_tw (RMulti c0 [10] [32] (map sp1 hs) (lay_body b)) = [10]
+                   /\ rule_in ext (RMulti c0 [10] [32] (map sp1 hs) (lay_body b)) = true).
+    { intros c0 hs Hne Hhs Hl. destruct (atoms_sp1_ok hs Hhs) as [Ho Hi]. cbn [rule_ok rule_tw rule_in]. rewrite Hbo, Hbi, Hba, Ho, Hi, map_length.
+      assert (E1 : (1 <=? Z.of_nat (length hs)) = true) by (destruct hs; [congruence | cbn [length]; lia]).
+      assert (E2 : (Z.of_nat (length hs) <=? atomMax) = true) by lia. rewrite E1, E2. repeat split. }
+    cbn [lay_rule] in Hin. destruct h as [|a [|a2 h2]].
+    + destruct (ht =? Head_t_Choice) eqn:Ec; [destruct Hin|]. destruct Hin as [<-|[]]. apply HB. cbn [isnil negb orb] in Hfa. exact Hfa.
+    + cbn [forallb] in Hh. destruct (ht =? Head_t_Choice) eqn:Ec; destruct Hin as [<-|[]].
+      * apply (HM true [a]); [discriminate | exact Hh | exact Hhl].
+      * apply HB. bsplit. assumption.
+    + destruct Hin as [<-|[]]. apply HM; [discriminate | exact Hh | exact Hhl].
+  - (* weight rule *)
+    destruct (frag_cwrule _ _ _ _ _ _ H) as (Hht & Hhl & Hh & Hfa & Hbnd & Hb & Hbl). pose proof (wlit_mlit b Hb) as Hm.
+    destruct (lay_wbody_in b Hm Hbl) as (Hbi & Hba & Hbw). pose proof (lay_wbody_ok b) as Hbo. destruct (lay_wts_ok b) as [Hwo Hwl].
+    assert (Ha : atom_rng (match h with [] => f | a :: _ => a end) = true).
+    { destruct h as [|a h2]; [exact Hfa|]. cbn [forallb] in Hh. bsplit. assumption. }
+    set (a := match h with [] => f | a :: _ => a end) in *.
+    assert (Hbo' : num_ok (sp1 bnd) = true) by (apply sp1_ok; lia).
+    assert (Hci : count_in (snd (sp1 bnd)) = true) by (unfold count_in, sp1, UINT_MAX, INT_MAX in *; cbn [snd]; lia).
+    assert (Hwi : weight_in (sp1 bnd) = true) by (unfold weight_in, sp1; cbn [snd]; lia).
+    cbn [lay_rule] in Hin. fold a in Hin. destruct (is_card b); destruct Hin as [<-|[]]; cbn [rule_ok rule_tw rule_in];
+      rewrite Hbo, Hbi, Hba, Hbo', Hci, Hwi, (atom_rng_in a Ha), sp1_ok by (unfold atom_rng in Ha; lia).
+    + repeat split.
+    + rewrite Hwo, Hbw, Hwl, Nat.eqb_refl. repeat split.
+  - (* minimize *)
+    destruct (frag_cmin _ _ _ _ H) as (Hm & Hl).
+    destruct (lay_wbody_in l Hm Hl) as (Hbi & Hba & Hbw). pose proof (lay_wbody_ok l) as Hbo. destruct (lay_wts_ok l) as [Hwo Hwl].
+    cbn [lay_rule] in Hin. destruct Hin as [<-|[]]. cbn [rule_ok rule_tw rule_in].
+    rewrite Hbo, Hbi, Hba, Hwo, Hbw, Hwl, Nat.eqb_refl. repeat split.
+  - (* external *)
+    destruct (frag_cext _ _ _ _ H) as (Hext & Ha & Hv). subst ext. cbn [lay_rule] in Hin.
+    destruct (v =? Value_t_Release) eqn:E; destruct Hin as [<-|[]]; cbn [rule_ok rule_tw rule_in];
+      rewrite (atom_rng_in a Ha), sp1_ok by (unfold atom_rng in Ha; lia).
+    + repeat split.
+    + pose proof (extval_rng v Hv E) as Hx. rewrite sp1_ok by lia. unfold sp1 at 1. cbn [snd].
+      assert (E2 : (Z.lxor v smw_extval_xor - smw_extval_sub <=? 2) = true) by lia. rewrite E2. repeat split.
+Qed.
+
+Lemma lay_rule_denote1 ext f prio c : frag_rule ext f c = true ->
+  match lay_rule f c with
+  | [] => norm_rule f prio c = ([], prio)
+  | [rl] => d_rule prio rl = norm_rule f prio c
+  | _ => False
+  end.
+Proof.
+  intros H. destruct c as [inc| | |ht h b|ht h bnd b|p l|atoms|name cond|a v|lits|a t bias prio0 cond|s0 t cond|id n|id s0|id c args|id terms cond|a t elems|a t elems op rhs];
+    try discriminate H.
+  - destruct (frag_crule _ _ _ _ _ H) as (Hht & Hh & Hhl & Hb & Hbl & Hfa).
+    pose proof (lay_body_denote b Hb) as Hd. cbn [lay_rule norm_rule].
+    destruct (ht =? Head_t_Choice) eqn:Ec.
+    + apply Z.eqb_eq in Ec. subst ht. destruct h as [|a [|a2 h2]]; cbn [d_rule fst snd sp1]; rewrite ?Hd; try reflexivity.
+      rewrite vals_sp1. reflexivity.
+    + assert (Hz : ht = Head_t_Disjunctive) by (rewrite ?Ec, orb_false_r in Hht; now apply Z.eqb_eq in Hht). subst ht.
+      destruct h as [|a [|a2 h2]]; cbn [d_rule fst snd sp1]; rewrite ?Hd; try reflexivity.
+      rewrite vals_sp1. reflexivity.
+  - destruct (frag_cwrule _ _ _ _ _ _ H) as (Hht & Hhl & Hh & Hfa & Hbnd & Hb & Hbl).
+    assert (Hn : norm_min b = norm_wbody b) by (unfold norm_min; now rewrite (flipw_id b (wlit_nonneg b Hb))).
+    cbn [lay_rule norm_rule]. destruct h as [|a [|a2 h2]]; [| |cbn [length] in Hhl; lia];
+      (destruct (is_card b) eqn:Ecard; cbn [d_rule fst snd sp1]; [rewrite (lay_c_denote b Ecard) | rewrite lay_w_denote]; rewrite Hn; reflexivity).
+  - cbn [lay_rule norm_rule d_rule fst snd]. rewrite lay_w_denote. reflexivity.
+  - destruct (frag_cext _ _ _ _ H) as (Hext & Ha & Hv). cbn [lay_rule norm_rule].
+    destruct (v =? Value_t_Release) eqn:E; cbn [d_rule fst snd sp1].
+    + apply Z.eqb_eq in E. subst v. reflexivity.
+    + unfold Value_t_Release in E. assert (C : v = 0 \/ v = 1 \/ v = 2) by lia. destruct C as [C|[C|C]]; subst v; reflexivity.
+Qed.
+Lemma lay_rule_denote ext f prio c rest : frag_rule ext f c = true ->
+  d_rules prio (lay_rule f c ++ rest) = fst (norm_rule f prio c) ++ d_rules (snd (norm_rule f prio c)) rest.
+Proof.
+  intros H. pose proof (lay_rule_denote1 ext f prio c H) as D. destruct (lay_rule f c) as [|rl [|rl2 l2]]; [| |destruct D].
+  - rewrite D. reflexivity.
+  - cbn [app d_rules]. rewrite D. reflexivity.
+Qed.
+
+(* ---------- (1) per-line round trip: the line written for a call is read back by the reader's rule dispatcher as the normal form ---------- *)
+Lemma rt_line (o : opts) f s c rl prio r ln :
+  w_sec s = 0 -> w_false s = f -> w_ext s = claspExt o -> frag_rule (claspExt o) f c = true -> lay_rule f c = [rl] -> delim r ->
+  exists t ln', sm_step s c = WOk (if empty_head c then set_fhead s else s) (print_nat (rule_type rl) ++ t ++ eol) /\
+                read_rule o prio (rule_type rl) (amk (t ++ r) ln) = Ok (norm_rule f prio c, amk r ln').
+Proof.
+  intros Hsec Hf He H Hl Hr.
+  destruct (lay_rule_wf _ f c rl H ltac:(rewrite Hl; now left)) as (Hok & _ & Hin).
+  pose proof (read_rule_spec o rl prio r ln Hok Hr) as Hs. rewrite Hin in Hs. destruct Hs as [ln' E].
+  pose proof (lay_rule_denote1 _ f prio c H) as D. rewrite Hl in D. rewrite D in E.
+  exists (rule_fields rl), ln'. split; [|exact E].
+  rewrite <- (line_nil rl), <- Hl.
+  destruct c as [inc| | |ht h b|ht h bnd b|p l|atoms|name cond|a v|lits|a t bias prio0 cond|s0 t cond|id n|id s0|id c args|id terms cond|a t elems|a t elems op rhs];
+    try discriminate H.
+  - now apply (step_rule (claspExt o)).
+  - now apply (step_wrule (claspExt o)).
+  - now apply (step_min (claspExt o)).
+  - now apply (step_ext (claspExt o)).
+Qed.
+
+Ltac use_rt_line o s prio r ln Hsec He H Hr rlx :=
+  let t := fresh "t" in let ln' := fresh "ln'" in let E1 := fresh "E1" in let E2 := fresh "E2" in
+  destruct (rt_line o (w_false s) s _ rlx prio r ln Hsec eq_refl He H eq_refl Hr) as (t & ln' & E1 & E2);
+  exists t, ln'; split; [exact E1 | exact E2].
+
+(* choice rule (type 3), any non-empty head *)
+Lemma rt_choice (o : opts) s h b prio r ln : w_sec s = 0 -> w_ext s = claspExt o -> h <> [] ->
+  frag_rule (claspExt o) (w_false s) (CRule Head_t_Choice h b) = true -> delim r ->
+  exists t ln', sm_step s (CRule Head_t_Choice h b) = WOk s (print_nat Sm_Choice ++ t ++ eol) /\
+                read_rule o prio Sm_Choice (amk (t ++ r) ln) = Ok ([CRule Head_t_Choice h (norm_body b)], prio, amk r ln').
+Proof.
+  intros Hsec He Hne H Hr. destruct h as [|a [|a2 h2]]; [congruence| |].
+  - use_rt_line o s prio r ln Hsec He H Hr (RMulti true [10] [32] [sp1 a] (lay_body b)).
+  - use_rt_line o s prio r ln Hsec He H Hr (RMulti true [10] [32] (map sp1 (a :: a2 :: h2)) (lay_body b)).
+Qed.
+(* disjunctive rule (type 8), two or more head atoms *)
+Lemma rt_disjunctive (o : opts) s a a2 h b prio r ln : w_sec s = 0 -> w_ext s = claspExt o ->
+  frag_rule (claspExt o) (w_false s) (CRule Head_t_Disjunctive (a :: a2 :: h) b) = true -> delim r ->
+  exists t ln', sm_step s (CRule Head_t_Disjunctive (a :: a2 :: h) b) = WOk s (print_nat Sm_Disjunctive ++ t ++ eol) /\
+                read_rule o prio Sm_Disjunctive (amk (t ++ r) ln) = Ok ([CRule Head_t_Disjunctive (a :: a2 :: h) (norm_body b)], prio, amk r ln').
+Proof.
+  intros Hsec He H Hr. use_rt_line o s prio r ln Hsec He H Hr (RMulti false [10] [32] (map sp1 (a :: a2 :: h)) (lay_body b)).
+Qed.
+(* integrity constraint: written with the false atom as head (type 1), the writer remembers that the false atom is used *)
+Lemma rt_false_atom (o : opts) s b prio r ln : w_sec s = 0 -> w_ext s = claspExt o ->
+  frag_rule (claspExt o) (w_false s) (CRule Head_t_Disjunctive [] b) = true -> delim r ->
+  exists t ln', sm_step s (CRule Head_t_Disjunctive [] b) = WOk (set_fhead s) (print_nat Sm_Basic ++ t ++ eol) /\
+                read_rule o prio Sm_Basic (amk (t ++ r) ln) = Ok ([CRule Head_t_Disjunctive [w_false s] (norm_body b)], prio, amk r ln').
+Proof.
+  intros Hsec He H Hr. use_rt_line o s prio r ln Hsec He H Hr (RBasic [10] (sp1 (w_false s)) (lay_body b)).
+Qed.
+(* cardinality rule (type 2): all weights 1 *)
+Lemma rt_cardinality (o : opts) s a bnd b prio r ln : w_sec s = 0 -> w_ext s = claspExt o -> is_card b = true ->
+  frag_rule (claspExt o) (w_false s) (CWRule Head_t_Disjunctive [a] bnd b) = true -> delim r ->
+  exists t ln', sm_step s (CWRule Head_t_Disjunctive [a] bnd b) = WOk s (print_nat Sm_Cardinality ++ t ++ eol) /\
+                read_rule o prio Sm_Cardinality (amk (t ++ r) ln) = Ok ([CWRule Head_t_Disjunctive [a] bnd (norm_wbody b)], prio, amk r ln').
+Proof.
+  intros Hsec He Hc H Hr.
+  assert (Hl : lay_rule (w_false s) (CWRule Head_t_Disjunctive [a] bnd b) = [RCard [10] (sp1 a) (lay_wbody b) (sp1 bnd)]) by (cbn [lay_rule]; now rewrite Hc).
+  destruct (rt_line o (w_false s) s _ _ prio r ln Hsec eq_refl He H Hl Hr) as (t & ln' & E1 & E2). exists t, ln'. split; [exact E1 | exact E2].
+Qed.
+(* weight rule (type 5): some weight differs from 1 (weight 0 included); bound first *)
+Lemma rt_weight (o : opts) s a bnd b prio r ln : w_sec s = 0 -> w_ext s = claspExt o -> is_card b = false ->
+  frag_rule (claspExt o) (w_false s) (CWRule Head_t_Disjunctive [a] bnd b) = true -> delim r ->
+  exists t ln', sm_step s (CWRule Head_t_Disjunctive [a] bnd b) = WOk s (print_nat Sm_Weight ++ t ++ eol) /\
+                read_rule o prio Sm_Weight (amk (t ++ r) ln) = Ok ([CWRule Head_t_Disjunctive [a] bnd (norm_wbody b)], prio, amk r ln').
+Proof.
+  intros Hsec He Hc H Hr.
+  assert (Hl : lay_rule (w_false s) (CWRule Head_t_Disjunctive [a] bnd b) = [RWeight [10] (sp1 a) (sp1 bnd) (lay_wbody b) (lay_wts b)]) by (cbn [lay_rule]; now rewrite Hc).
+  destruct (rt_line o (w_false s) s _ _ prio r ln Hsec eq_refl He H Hl Hr) as (t & ln' & E1 & E2). exists t, ln'. split; [exact E1 | exact E2].
+Qed.
+(* a sum rule with an empty head: false atom as head *)
+Lemma rt_false_atom_sum (o : opts) s bnd b prio r ln : w_sec s = 0 -> w_ext s = claspExt o ->
+  frag_rule (claspExt o) (w_false s) (CWRule Head_t_Disjunctive [] bnd b) = true -> delim r ->
+  exists t ln', sm_step s (CWRule Head_t_Disjunctive [] bnd b) = WOk (set_fhead s) (print_nat (if is_card b then Sm_Cardinality else Sm_Weight) ++ t ++ eol) /\
+                read_rule o prio (if is_card b then Sm_Cardinality else Sm_Weight) (amk (t ++ r) ln)
+                = Ok ([CWRule Head_t_Disjunctive [w_false s] bnd (norm_wbody b)], prio, amk r ln').
+Proof.
+  intros Hsec He H Hr. destruct (is_card b) eqn:Hc.
+  - assert (Hl : lay_rule (w_false s) (CWRule Head_t_Disjunctive [] bnd b) = [RCard [10] (sp1 (w_false s)) (lay_wbody b) (sp1 bnd)]) by (cbn [lay_rule]; now rewrite Hc).
+    destruct (rt_line o (w_false s) s _ _ prio r ln Hsec eq_refl He H Hl Hr) as (t & ln' & E1 & E2). exists t, ln'. split; [exact E1 | exact E2].
+  - assert (Hl : lay_rule (w_false s) (CWRule Head_t_Disjunctive [] bnd b) = [RWeight [10] (sp1 (w_false s)) (sp1 bnd) (lay_wbody b) (lay_wts b)]) by (cbn [lay_rule]; now rewrite Hc).
+    destruct (rt_line o (w_false s) s _ _ prio r ln Hsec eq_refl He H Hl Hr) as (t & ln' & E1 & E2). exists t, ln'. split; [exact E1 | exact E2].
+Qed.
+(* minimize (type 6): bound 0, sign normalisation, priority = number of minimize statements read so far *)
+Lemma rt_minimize (o : opts) s p l prio r ln : w_sec s = 0 -> w_ext s = claspExt o ->
+  frag_rule (claspExt o) (w_false s) (CMin p l) = true -> delim r ->
+  exists t ln', sm_step s (CMin p l) = WOk s (print_nat Sm_Optimize ++ t ++ eol) /\
+                read_rule o prio Sm_Optimize (amk (t ++ r) ln) = Ok ([CMin prio (norm_min l)], prio + 1, amk r ln').
+Proof.
+  intros Hsec He H Hr. use_rt_line o s prio r ln Hsec He H Hr (RMin [10] (sp1 0) (lay_wbody l) (lay_wts l)).
+Qed.
+(* externals (types 91 / 92): only with the extensions; value coding (v xor 3) - 1 *)
+Lemma rt_external (o : opts) s a v prio r ln : w_sec s = 0 -> w_ext s = claspExt o ->
+  frag_rule (claspExt o) (w_false s) (CExternal a v) = true -> delim r ->
+  exists t ln', sm_step s (CExternal a v) = WOk s (print_nat (if v =? Value_t_Release then Sm_ClaspReleaseExt else Sm_ClaspAssignExt) ++ t ++ eol) /\
+                read_rule o prio (if v =? Value_t_Release then Sm_ClaspReleaseExt else Sm_ClaspAssignExt) (amk (t ++ r) ln)
+                = Ok ([CExternal a v], prio, amk r ln').
+Proof.
+  intros Hsec He H Hr. destruct (v =? Value_t_Release) eqn:Ev.
+  - assert (Hl : lay_rule (w_false s) (CExternal a v) = [RRelease [10] (sp1 a)]) by (cbn [lay_rule]; now rewrite Ev).
+    destruct (rt_line o (w_false s) s _ _ prio r ln Hsec eq_refl He H Hl Hr) as (t & ln' & E1 & E2). exists t, ln'. split; [exact E1 | exact E2].
+  - assert (Hl : lay_rule (w_false s) (CExternal a v) = [RAssign [10] (sp1 a) (sp1 (Z.lxor v smw_extval_xor - smw_extval_sub))]) by (cbn [lay_rule]; now rewrite Ev).
+    destruct (rt_line o (w_false s) s _ _ prio r ln Hsec eq_refl He H Hl Hr) as (t & ln' & E1 & E2). exists t, ln'. split; [exact E1 | exact E2].
+Qed.
+(* basic rule (type 1), stated without the fragment predicate *)
+Lemma rt_basic_line (o : opts) (s : wstate) a b prio r ln :
+  w_sec s = 0 -> atom_rng a = true -> forallb lit_rng b = true -> Z.of_nat (length b) <= 4294967295 -> delim r ->
+  exists t ln', sm_step s (CRule Head_t_Disjunctive [a] b) = WOk s (print_nat Sm_Basic ++ t ++ eol) /\
+                read_rule o prio Sm_Basic (amk (t ++ r) ln) = Ok ([CRule Head_t_Disjunctive [a] (norm_body b)], prio, amk r ln').
+Proof.
+  intros Hsec Ha Hb Hlen Hr.
+  destruct (rt_basic o a b prio r ln Ha Hb Hlen Hr) as [ln' E].
+  exists (w_head Head_t_Disjunctive [a] ++ w_body b), ln'. split.
+  - cbn [sm_step]. unfold w_rule. rewrite Hsec. cbn [Z.eqb negb]. rewrite <- app_assoc. reflexivity.
+  - rewrite <- app_assoc. exact E.
 Qed.
